@@ -277,6 +277,9 @@ class SupvisorsInstanceStatus:
         self.logger.debug(f'SupvisorsInstanceStatus.update_tick: update Supvisors={self.usage_identifier}' 
                           f' with sequence_counter={remote_sequence_counter} remote_time={remote_time}'
                           f' remote_mtime={remote_mtime} local_sequence_counter={local_sequence_counter}')
+        # NOTE: the restart of a Supvisors instance that has already been invalidated is not a stealth restart
+        if not self.has_active_state():
+            self.times.remote_sequence_counter = 0
         self.times.update(remote_sequence_counter, remote_mtime, remote_time, local_sequence_counter)
         # update all process times
         for process in self.processes.values():
